@@ -105,6 +105,7 @@ for k, v in EXTRA7.items():
 # additions of the eighth round
 EXTRA8 = {
  "C08": "; labels and procedures of one generated program in four are named by vocabulary words (program vocabulary and downstream-only keywords in three letter cases, filtered by what the working tree's assembler accepts): metamorphic relation 'a name is a name' against the name-blind reference",
+ "C10": "; boundary probes with data definitions of every kind ending below, at, across and behind the end of the 1 MiB space and filling a segment (accepted => loadable, in-process and through the CLI)",
  "C15": "; the print reader behind the real prompt: ~3000 lines (print commands over a number lattice around 2^16 .. 2^64 and beyond in four radix spellings, long digit strings, token soups, non-ASCII, over-long words) typed in batches at the prompt of a stepped program in both builds, failing batch narrowed to one line",
  "C17": "; print constants in every accepted spelling (0x / 0X, 0b / 0B, zero-padded); commands at the prompt in lower, upper and capitalised spelling",
  "C20": "; comments with multi-byte characters in the stepped programs (character and byte offsets of a line differ); vocabulary-named labels",
